@@ -23,7 +23,7 @@ RULE = ("algebra vectors of so(3), se(3), se_2(3): corpus (0, denormal, both sid
         "R [w]x; non-trivial = rotation angle > 1e-6 and (for se3/se23) non-zero translation; distinct = hashed vectors")
 ASSUMPTIONS = ["scipy.linalg.expm_frechet accurate to ~1e-13", "angles capped at 2pi-0.05 (Jacobian inverse singular at 2pi)"]
 N_QUICK = 4000
-N_THOROUGH = 20000
+N_THOROUGH = 60000
 
 
 def specs():
@@ -59,7 +59,7 @@ def run(ctx):
         if i % ctx.nshards == ctx.shard:
             algebra_jacobians(ctx, s, max(50, N // nc), c)
     if ctx.shard == ctx.nshards - 1:
-        group_jacobians(ctx, 20000 if ctx.quick else 400000)
+        group_jacobians(ctx, 20000 if ctx.quick else 1000000)
         mp_cross_check(ctx, 6 if ctx.quick else 60)
 
 
